@@ -756,6 +756,11 @@ func (P *Prog) checkSelection(r *Result) {
 			named, tested = true, true
 			srcs, isElem := sliceElemSources(key)
 			if !isElem {
+				// a key read out of a set built by a helper (`for k := range fieldSelection(vals...)`): every key the
+				// set was given, judged where it was put in
+				srcs, isElem = setKeySources(key)
+			}
+			if !isElem {
 				return fromArg(key), P.boolMapGuardOK(at.Parent(), at.Block(), key)
 			}
 			if len(srcs) == 0 {
@@ -1005,6 +1010,57 @@ func localSetFilter(b *ssa.BasicBlock, key ssa.Value) (how string, set ssa.Value
 		return "out", mk
 	}
 	return "", nil
+}
+
+// setKeySources: key is the key of a range over a map that was made in the module (a set of names built by a
+// helper): the keys put into it, each with the instruction that put it there. A whole map copied into the set
+// (`maps.Copy(set, m)`) contributes m itself, with the copy as the site - its values cannot have been tested.
+func setKeySources(key ssa.Value) (out []elemSource, isElem bool) {
+	ek, ok := cv(key).(*ssa.Extract)
+	if !ok || ek.Index != 1 {
+		return nil, false
+	}
+	nx, ok := ek.Tuple.(*ssa.Next)
+	if !ok || nx.IsString {
+		return nil, false
+	}
+	rg, ok := nx.Iter.(*ssa.Range)
+	if !ok {
+		return nil, false
+	}
+	mk, ok := cv(rg.X).(*ssa.MakeMap)
+	if !ok {
+		return nil, false
+	}
+	if mt, ok := mk.Type().Underlying().(*types.Map); !ok || !types.Identical(mt.Key().Underlying(), types.Typ[types.String]) {
+		return nil, false
+	}
+	for _, rf := range *mk.Referrers() {
+		switch u := rf.(type) {
+		case *ssa.MapUpdate:
+			if u.Map == ssa.Value(mk) {
+				if b, isB := constBool(cv(u.Value)); isB && !b {
+					out = append(out, elemSource{mk, u}) // entered as false: not a selection
+					continue
+				}
+				out = append(out, elemSource{u.Key, u})
+			}
+		case *ssa.DebugRef, *ssa.Range, *ssa.Return, *ssa.Lookup:
+		case ssa.CallInstruction:
+			ci := callOf(rf)
+			switch {
+			case ci != nil && ci.builtin == "len":
+			case ci != nil && ci.builtin == "delete":
+			case ci != nil && ci.static != nil && originName(ci.static) == "maps.Copy" && u.Common().Args[0] == ssa.Value(mk):
+				out = append(out, elemSource{mk, rf}) // all keys of another map, values untested
+			default:
+				out = append(out, elemSource{mk, rf}) // handed to something else: unknown keys
+			}
+		default:
+			out = append(out, elemSource{mk, rf})
+		}
+	}
+	return out, true
 }
 
 // rangedMapOf: key and val are the key and the value of one and the same iteration of a range over a map;
